@@ -160,6 +160,10 @@ def judge_call(rec, tree, reqs, capacity, prop_clauses):
     obs = sv.norm_outcome('value' if kind == 'value' else 'exc', rec['payload'])
     why = sv.match_expected(obs, exp)
     if why is None:
+        late_tol = (prop_clauses or {}).get('late_tol', 1e-6)
+        if rec['timeout'] != 'long' and late_tol is not None and not rec.get('untimed') and rec['t1'] - rec['t0'] > rec['timeout'] + late_tol:
+            # `timeout` covers the whole call, the wait for a slot included: whatever comes back after the deadline should have been a TimeoutError
+            return ('answered_after_deadline', f'request {rid} (timeout {rec["timeout"]}) got its answer after {rec["t1"] - rec["t0"]:.4f}s virtual')
         if rec['timeout'] == 'long' and rec['t1'] - rec['t0'] > 100.0 and not rec.get('untimed'):
             # all generated service times, batch waits and call timeouts are milliseconds: a request that comes back after minutes of
             # virtual time was not served when the server could serve it, it was let in only because its own wait for a slot expired
